@@ -132,6 +132,8 @@ class HeapMixin(object):
     """A modifies entry -> [(key, sorts)].  Forms: 'Class.field', 'list[T]' (all
     components), 'list[T].items' (one component family), '$cls'."""
     pat = pat.strip()
+    if pat == '*':     # everything (forwarding into arbitrary downstream code); '$cls' tags are immutable
+      return [(k, so) for k, so in list(self.heap_sorts.items()) if k != '$cls']
     if pat == '$cls':
       return [('$cls', [I, I])]
     m = re.match(r'^(list|set|dict|deque)\[.*\]', pat)
@@ -202,6 +204,8 @@ class HeapMixin(object):
 
   def keys_of_patterns(self, pats):
     out = set()
+    if '*' in pats:
+      out.add('*')
     for p in pats:
       for key, sorts in self.expand_pattern(p):
         out.add(key)
